@@ -12,7 +12,7 @@ for p in props:
     pid = p["id"]
     m = meta.get(pid)
     have = os.path.exists(os.path.join(root, "vf/props/%s.py" % pid.lower()))
-    if not (m and have) or m.get("not_applicable"):
+    if not (m and have) or m.get("not_applicable") or pid not in glob.get("ready", []):
         na.append({"property_id": pid, "reason": (m or {}).get("not_applicable") or "check not built yet (work in progress; design in DESIGN.md section 2)"})
         continue
     checks.append({
